@@ -159,6 +159,29 @@ func VerifyFunc(p *Program, key string, fn *ssa.Function, k *Contract) *FuncResu
 		e.logicals[lv[0]] = TV{T: v, Ty: t}
 	}
 	e.bindParams(env, fr)
+	for _, gi := range k.GhostInit {
+		eqi := strings.Index(gi, "=")
+		lhs := strings.TrimSpace(gi[:eqi])
+		parts := strings.SplitN(lhs, ":", 2)
+		if len(parts) != 2 {
+			c.Unsupported("bad ghostinit %q", gi)
+			continue
+		}
+		ty := env.lookupType(parts[1])
+		ex, err := ParseSpecExpr(strings.TrimSpace(gi[eqi+1:]))
+		if ty == nil || err != nil {
+			c.Unsupported("bad ghostinit %q", gi)
+			continue
+		}
+		c.DeclComp(parts[0], env.sortOf(ty))
+		v := env.eval(ex)
+		if v.T == "nil" {
+			v = TV{T: c.Zero(ty), Ty: ty}
+		} else if v.Ty == nil {
+			v = env.coerce(v, ty)
+		}
+		c.Assert(eq(c.Get(e.entry, parts[0]), v.T))
+	}
 	e.assumeConstGlobals(pkg, e.entry)
 	for _, cl := range k.Requires {
 		ex, err := cl.Parse()
@@ -175,6 +198,7 @@ func VerifyFunc(p *Program, key string, fn *ssa.Function, k *Contract) *FuncResu
 	// ensures
 	post := e.newEnv(pkg, oc.St, e.entry)
 	e.bindParams(post, fr)
+	e.bindCells(post, fr)
 	res := fn.Signature.Results()
 	for i := 0; i < res.Len() && i < len(oc.Results); i++ {
 		n := res.At(i).Name()
@@ -564,7 +588,11 @@ func (e *Eval) assumeConstGlobals(pkg *ssa.Package, st *State) {
 			continue
 		}
 		env := e.newEnv(pkg, st, st)
-		ex, err := ParseSpecExpr(cg.Name + " == " + cg.Value)
+		txt := cg.Name + " == " + cg.Value
+		if cg.Value == "nonnil" {
+			txt = cg.Name + " != nil"
+		}
+		ex, err := ParseSpecExpr(txt)
 		if err != nil {
 			e.c.Unsupported("constglobal %s: %v", cg.Name, err)
 			continue
@@ -606,7 +634,19 @@ func ConstGlobalResult(p *Program, cg *ConstGlobal) *FuncResult {
 						case *ssa.UnOp:
 							// load
 						case *ssa.Store:
-							if x.Addr == g && fn.Name() == "init" && fn.Synthetic != "" {
+							if x.Addr == g && fn.Name() == "init" && fn.Synthetic != "" && cg.Value == "nonnil" {
+								stores++
+								// initialised from errors.New / fmt.Errorf (never nil)
+								okInit := false
+								if call, isCall := x.Val.(*ssa.Call); isCall {
+									if cal := call.Call.StaticCallee(); cal != nil && (cal.String() == "errors.New" || cal.String() == "fmt.Errorf") {
+										okInit = true
+									}
+								}
+								if !okInit {
+									ok, why = false, "initialiser is not errors.New/fmt.Errorf"
+								}
+							} else if x.Addr == g && fn.Name() == "init" && fn.Synthetic != "" {
 								stores++
 								env := e.newEnv(pkg, NewState(), NewState())
 								ex, err := ParseSpecExpr(cg.Value)
